@@ -163,6 +163,10 @@ class Unit:
         self.e9_n = 0
         self._e9_names = {}
         self._local_stub_stack = []
+        self._modpath = []          # current module path inside verus!{}
+        self._emitted = set()       # module-level names emitted: tuples of path segments
+        self._auto_uses = []        # (piece, source file, module path) resolved at render time
+        self._impl_depth = 0
         self.labels = {}
         self.notes = []
         self.externs = ["http", "hyper", "bytes", "tokio", "serde_json", "itertools", "hex", "hmac_sha256",
@@ -182,8 +186,11 @@ class Unit:
             text += "\n"
         self.pieces.append(Piece(text, kind, rule=rule, fn=fn))
 
-    def raw(self, text):
+    def raw(self, text, names=()):
+        """contract/ghost text; `names` = module-level names it declares (so that auto_uses can resolve imports of them)"""
         self.emit(text, "contract")
+        for n in names:
+            self._note_emitted(n)
 
     def raw_file(self, fname):
         p = os.path.join(self.contract_dir, fname)
@@ -194,14 +201,20 @@ class Unit:
 
     # ---- structure -------------------------------------------------------
     class _Ctx:
-        def __init__(self, u, close, is_mod=False):
+        def __init__(self, u, close, is_mod=False, name=None, is_impl=False):
             self.u = u
             self.close = close
             self.is_mod = is_mod
+            self.name = name
+            self.is_impl = is_impl
 
         def __enter__(self):
             if self.is_mod:
                 self.u._local_stub_stack.append([])
+                self.u._modpath.append(self.name)
+                self.u._emitted.add(tuple(self.u._modpath))
+            if self.is_impl:
+                self.u._impl_depth += 1
             return self
 
         def __exit__(self, *a):
@@ -209,13 +222,22 @@ class Unit:
                 # E9 stubs requested with opts local=True live in the module of their call site (its `use`s apply)
                 for st in self.u._local_stub_stack.pop():
                     self.u.emit(st, "rule", "E9")
+                self.u._modpath.pop()
+            if self.is_impl:
+                self.u._impl_depth -= 1
             self.u.emit(self.close, "glue", "E1")
             return False
 
-    def mod(self, name, uses=""):
+    def mod(self, name, uses="", auto_uses=None):
+        """auto_uses: source file whose own file-level `use` lines are copied into this module, keeping exactly those
+        that resolve inside the unit (items the unit emitted, extern crates); resolved at render time (E1)."""
         self.emit("pub mod %s {\n#[allow(unused_imports)] use vstd::prelude::*;\n#[allow(unused_imports)] use crate::*;\n%s" % (name, uses), "glue", "E1")
+        if auto_uses is not None:
+            pc = Piece("", "glue", rule="E1")
+            self.pieces.append(pc)
+            self._auto_uses.append((pc, auto_uses, list(self._modpath) + [name], uses))
         self.rule("E1", "mod " + name)
-        return Unit._Ctx(self, "} // mod %s" % name, is_mod=True)
+        return Unit._Ctx(self, "} // mod %s" % name, is_mod=True, name=name)
 
     def impl_(self, sf, path, attr=""):
         it = sf.item(path, "impl")
@@ -223,7 +245,7 @@ class Unit:
         header = sf.s(hs, it["brace"][0])
         self.pieces.append(Piece(attr + header, "src", sf.rel, hs))
         self.emit("{", "glue", "E1")
-        return Unit._Ctx(self, "} // impl %s" % path)
+        return Unit._Ctx(self, "} // impl %s" % path, is_impl=True)
 
     def trait_(self, sf, path, extra=""):
         it = sf.item(path, "trait")
@@ -233,7 +255,60 @@ class Unit:
             header = "pub " + header
         self.pieces.append(Piece(header, "src", sf.rel, hs))
         self.emit("{\n" + extra, "glue", "E1")
-        return Unit._Ctx(self, "} // trait %s" % path)
+        self._note_emitted(it["name"])
+        return Unit._Ctx(self, "} // trait %s" % path, is_impl=True)
+
+    def _note_emitted(self, name):
+        if self._impl_depth == 0 and name:
+            self._emitted.add(tuple(self._modpath) + (name,))
+
+    def _resolve_auto_uses(self):
+        std = ("std", "core", "alloc", "vstd")
+        for (pc, sf, modpath, manual) in self._auto_uses:
+            lines, dropped = [], []
+            manual_names = set(re.findall(r"(\w+)\s*(?:;|,|\})", manual)) | set(re.findall(r"as\s+(\w+)", manual))
+            for it in sf.index["items"]:
+                if it["kind"] != "use":
+                    continue
+                cfgs = [re.sub(r"\s+", "", a["text"]) for a in it.get("attrs", []) if a["name"] == "cfg"]
+                if any(c in ("#[cfg(windows)]", "#[cfg(test)]") for c in cfgs):
+                    continue
+                for u_ in it.get("uses", []):
+                    path = list(u_["path"])
+                    bound = u_["alias"] or (path[-1] if not u_["glob"] else None)
+                    if bound == "self" and len(path) > 1:
+                        path = path[:-1]
+                        bound = u_["alias"] or path[-1]
+                    if bound in manual_names:
+                        continue
+                    first = path[0]
+                    target = None
+                    if first == "crate":
+                        target = tuple(path[1:])
+                    elif first == "super":
+                        base = list(modpath[:-1])
+                        k = 0
+                        while k < len(path) and path[k] == "super":
+                            k += 1
+                        base = list(modpath[:len(modpath) - k])
+                        target = tuple(base + path[k:])
+                    elif first == "self":
+                        target = tuple(list(modpath) + path[1:])
+                    elif first in std or first in self.externs or first.replace("-", "_") in self.externs:
+                        txt = "::".join(path) + ("::*" if u_["glob"] else "") + ((" as " + u_["alias"]) if u_["alias"] else "")
+                        lines.append("#[allow(unused_imports)] use %s;" % txt)
+                        continue
+                    else:
+                        # a workspace crate modelled as a top-level module of the unit (e.g. proxy_agent_shared)
+                        target = tuple(path)
+                    if target in self._emitted:
+                        txt = "crate::" + "::".join(target) + ("::*" if u_["glob"] else "") + ((" as " + u_["alias"]) if u_["alias"] else "")
+                        lines.append("#[allow(unused_imports)] use %s;" % txt)
+                    else:
+                        dropped.append("::".join(path))
+            pc.text = "\n".join(lines) + "\n"
+            if dropped:
+                self.rule("E1", "mod %s: use lines of %s not resolvable inside the unit, dropped: %s" % ("::".join(modpath), sf.rel, ", ".join(dropped)))
 
     def _after_attrs(self, sf, it):
         pos = it["span"][0]
@@ -309,6 +384,7 @@ class Unit:
             kept = [d for d in ders if d in keep]
             self.emit("%spub struct %s(());" % (("#[derive(%s)]\n" % ", ".join(kept)) if kept else "", it["name"]), "rule", "E13")
             names.append(it["name"])
+            self._note_emitted(it["name"])
             self.rule("E13", "%s %s declared as opaque placeholder (derives kept: %s)  <- %s:%d" % (it["kind"], path, ",".join(kept) or "-", sf.rel, sf.line_of(it["span"][0])))
         self.emit("} // mod %s" % modname, "glue", "E13")
         self.pieces = saved
@@ -357,6 +433,9 @@ class Unit:
             self.pieces += apply_edits(sf, it["span"][0], it["span"][1], edits)
             self.emit("", "glue")
             names.append(it["name"])
+            self.pieces = saved
+            self._note_emitted(it["name"])
+            self.pieces = self.ext_pieces
             self.rule("E1", "%s %s kept outside verus! (opaque external type)  <- %s:%d" % (it["kind"], path, sf.rel, sf.line_of(it["span"][0])))
         self.emit("} // mod %s" % modname, "glue", "E1")
         self.pieces = saved
@@ -434,6 +513,7 @@ class Unit:
             self.emit(extra_attrs, "glue", "E2")
         self.pieces += apply_edits(sf, it["span"][0], it["span"][1], edits)
         self.emit("", "glue")
+        self._note_emitted(it["name"])
         if structural:
             self.emit("unsafe impl Structural for %s {}" % it["name"], "rule", "E2")
         self.rule("E1", "%s %s  <- %s:%d" % (k, path, sf.rel, sf.line_of(it["span"][0])))
@@ -648,6 +728,7 @@ class Unit:
         pcs = apply_edits(sf, it["span"][0], it["span"][1], edits, fn=fnname)
         self.pieces += pcs
         self.emit("", "glue")
+        self._note_emitted(it["name"])
         rec = dict(name=path, rel=sf.rel, line=sf.line_of(it["sig"][0]), rules=sorted(set(applied)),
                    gen_name=it["name"], external_body=bool(external_body or drop_body), under_contract=under_contract and not (external_body or drop_body) and not is_trait_sig)
         if is_trait_sig:
@@ -928,6 +1009,7 @@ class Unit:
     # ---- render -----------------------------------------------------------
     def render(self, header_extra=""):
         self.flush_e9()
+        self._resolve_auto_uses()
         body = "".join(p.text for p in self.pieces)
         hdr = ["// GENERATED by /verif/tools/vxlib.py for unit '%s' -- do not edit." % self.name,
                "// Source text is copied byte-for-byte from %s; differences are exactly the rule applications below." % self.repo.root]
